@@ -413,7 +413,7 @@ pub fn check(ctx: &mut Ctx) {
 	ctx.rule = "valid calls (and one-entry batches) padded to an exact byte size relative to max_request_body_size (limit-2..limit+2, x0.5, x2, x10) by interior / leading / trailing blanks or a long string param, \
 		for every pair (max_request, max_response) of a grid of six values incl. unequal ones, delivered as WS text/binary frame, HTTP with/without Content-Length, HTTP chunked, through the TowerService and through the low-level ws::connect / http::call_with_service_builder entry points. \
 		Oracle: size <= max_request <=> handler ran once and the normal reply (or -32008/-32011 if only the reply is too big); otherwise invocation log unchanged, -32007/id null on WS with the connection still serving, status >= 400 on HTTP. \
-		Non-trivial = size within +-1 of the request limit with max_request != max_response; distinct by case value."
+		Non-trivial = size within +-1 of the request limit with max_request != max_response; distinct by case value. Also: WebSocket messages sent as two frames, HTTP bodies whose Content-Length understates them, and (sub-check oversized-under-backpressure) an oversized message arriving while the peer does not read and the outgoing buffer is full: exactly one -32007, nothing dispatched, every queued call and a later call still answered."
 		.into();
 	ctx.assumptions = vec!["message size = WebSocket payload length / HTTP body length in bytes".into(), "the default `Server` (accept loop, real sockets, HTTP chunked transfer encoding on the wire) is covered by the real-clock sub-check request-sizes-over-tcp; a missed wall budget there is inconclusive".into()];
 	ctx.run_sub(&Sizes);
